@@ -421,6 +421,10 @@ func cvLog(r *rng, s *sink, maxLaps, maxRows int, withOBD bool, baseSec int64) (
 	pal := cvPalette[:2+r.intn(len(cvPalette)-1)]
 	usedPos := map[cvPos]bool{}
 	freshSeen := false
+	drift := r.chance(1, 3)
+	if drift {
+		s.count("cv.clock_drift")
+	}
 	obdVals := make([]string, nch)
 	for i := range obdVals {
 		obdVals[i] = taFloat(r)
@@ -436,6 +440,14 @@ func cvLog(r *rng, s *sink, maxLaps, maxRows int, withOBD bool, baseSec int64) (
 			}
 			now += step
 			ms += step
+			if drift {
+				// the wall clock does not tick in step with the logger's own clock: it drifts by a few
+				// milliseconds per row and is stepped now and then
+				ms += int64(r.intn(7))
+				if r.chance(1, 10) {
+					ms += int64(pick(r, []int{300, 1000, 45}))
+				}
+			}
 			sec += ms / 1000
 			ms %= 1000
 			gu := r.chance(2, 5)
